@@ -11,6 +11,7 @@ pub mod c08;
 pub mod c11;
 pub mod c12;
 pub mod c17;
+pub mod c19;
 
 pub struct Prop {
     pub id: &'static str,
@@ -46,6 +47,7 @@ pub fn get(id: &str) -> Option<Prop> {
         "C11" => Some(c11::prop()),
         "C12" => Some(c12::prop()),
         "C17" => Some(c17::prop()),
+        "C19" => Some(c19::prop()),
         _ => None,
     }
 }
